@@ -30,7 +30,7 @@ def observe(lib, asts, env):
         if n % 2000 == 0:
             h = F.Harnessed(lib, env)
         text = F.render(ast)
-        o = h.parse(text)
+        o = h.parse(text, again=n % 3 == 2)
         o.update({'id': len(obs) + 1, 'ast': ast, 'env': env, 'formula': text, 'checks': ['value']})
         obs.append(o)
     return obs
